@@ -197,8 +197,10 @@ def _c12_dead(v):
 def _c12_raw_fstring(v):
     d, msg, mech, ver = _c12(v)
     import re
-    lt = d.get('line_text') or ''
-    return v['kind'] == 'a_error_node' and bool(re.search(r'(?i)\b(rf|fr)("|\')', lt)) and ('\\{' in lt or '\\}' in lt)
+    lt = d.get('err_span_text') or d.get('line_text') or ''
+    # an f-string (raw or not) whose text contains a backslash directly before a brace (or \\N{ in a raw one)
+    return v['kind'] == 'a_error_node' and bool(re.search(r'(?i)(?<![a-z0-9_])(f|rf|fr)("|\')', lt)) \
+        and ('\\{' in lt or '\\}' in lt or bool(re.search(r'(?i)(rf|fr)("|\').*\\N\{', lt, re.S)))
 
 
 @classifier('c12_formfeed_indentation')
